@@ -38,6 +38,20 @@ type DatabaseRecovery struct {
 
 // NewDatabaseRecovery creates a new database recovery instance
 func NewDatabaseRecovery(config RetryConfig) *DatabaseRecovery {
+	// Sanitise nonsensical settings: always make at least one attempt, and keep the
+	// back-off waits non-negative and non-decreasing (a factor below 1 or NaN means "no growth").
+	if config.MaxAttempts < 1 {
+		config.MaxAttempts = 1
+	}
+	if config.BaseDelay < 0 {
+		config.BaseDelay = 0
+	}
+	if config.MaxDelay < 0 {
+		config.MaxDelay = 0
+	}
+	if !(config.BackoffFactor >= 1) {
+		config.BackoffFactor = 1
+	}
 	return &DatabaseRecovery{
 		retryConfig: config,
 	}
@@ -170,7 +184,8 @@ func (dr *DatabaseRecovery) shouldRetry(err error) bool {
 func (dr *DatabaseRecovery) calculateDelay(attempt int) time.Duration {
 	delay := float64(dr.retryConfig.BaseDelay) * math.Pow(dr.retryConfig.BackoffFactor, float64(attempt-1))
 
-	if delay > float64(dr.retryConfig.MaxDelay) {
+	// (0 * +Inf is NaN when the base delay is zero and the factor overflows)
+	if delay > float64(dr.retryConfig.MaxDelay) || math.IsNaN(delay) {
 		delay = float64(dr.retryConfig.MaxDelay)
 	}
 
